@@ -147,7 +147,7 @@ def jobs(tier):
             n_ = ns if what != 'cfg' else min(ns, 5)
             if fam in ('two_stack_symbols', 'replace_only'):
                 n_ = min(n_, 4)
-            if what == 'cfg' and quick and fam in ('two_stack_symbols', 'replace_and_pop'):
+            if what == 'cfg' and quick and fam in ('two_stack_symbols', 'replace_and_pop', 'replace_only'):
                 continue
             add('%s_%s' % (what, fam), fam=fam, what=what, maxlen=ml if what != 'cfg' else min(ml, 2), nsym=n_, timeout=tmo)
         for seed in range(2 if quick else 6):
